@@ -297,11 +297,60 @@ theorem LS.and_ok {a b r : LS} (ha : Sorted a.hs) (hb : Sorted b.hs) (h : LS.and
       refine ⟨h1'.1, h1'.2, by omega, ?_⟩
       rw [interL_eq_filter _ _ ha hb]
 
-/-- what `CounterGather.peek` returns when it returns a match -/
+/-- the lazy-refresh loop of `peek` on counters that are exact for the (downsampled) current query: the
+first entry taken is accepted, nothing is refreshed -/
+theorem peekLoop_exact {cur : LS} {s : Nat} {nT : F64.F} {es es' : List (CEntry LS)}
+    {r : Option (CEntry LS × LS)} (hcs : Sorted cur.hs) (hsc : cur.scaled = s)
+    (hent : ∀ e ∈ es, e.sig.mh.WF ∧ e.sig.mh.scaled ≤ s)
+    (hexact : ∀ e ∈ es, e.count = (ovl cur.hs (dn s e.sig.mh.hs) : Int)) (fuel : Nat)
+    (h : peekLoop lsOps cur s nT (fuel + 1) es = .ok (es', r)) :
+    es' = es ∧
+    match r with
+    | none => es = [] ∨ ∃ best, mostCommon es = some best ∧ belowThreshold best.count nT = true
+    | some x => mostCommon es = some x.1 ∧ belowThreshold x.1.count nT = false ∧
+        x.2 = ⟨s, cur.hs.filter (inL (dn s x.1.sig.mh.hs)), none⟩ := by
+  unfold peekLoop at h
+  cases hm : mostCommon es with
+  | none =>
+    rw [hm] at h
+    simp only [Except.ok.injEq, Prod.mk.injEq] at h
+    obtain ⟨rfl, rfl⟩ := h
+    exact ⟨rfl, Or.inl (mostCommon_eq_none.1 hm)⟩
+  | some best =>
+    rw [hm] at h
+    simp only [] at h
+    obtain ⟨hbmem, _⟩ := mostCommon_some hm
+    obtain ⟨hbwf, hble⟩ := hent best hbmem
+    by_cases hbelow : belowThreshold best.count nT = true
+    · rw [if_pos hbelow] at h
+      simp only [Except.ok.injEq, Prod.mk.injEq] at h
+      obtain ⟨rfl, rfl⟩ := h
+      exact ⟨rfl, Or.inr ⟨best, rfl, hbelow⟩⟩
+    · rw [if_neg hbelow, lsOps_dsF, LS.ds_eq hble] at h
+      simp only [lsOps_flat] at h
+      cases hand : lsOps.and cur (best.sig.mh.dsv s).flat with
+      | error e => rw [hand] at h; cases h
+      | ok inter =>
+        rw [hand] at h
+        simp only [] at h
+        have hbs : Sorted ((best.sig.mh.dsv s).flat).hs := sorted_dn hbwf.sorted s
+        obtain ⟨_, _, _, hr⟩ := LS.and_ok hcs hbs hand
+        have hlen : ((len lsOps inter : Nat) : Int) = best.count := by
+          rw [hexact best hbmem, hr]
+          rfl
+        rw [if_pos hlen] at h
+        simp only [Except.ok.injEq, Prod.mk.injEq] at h
+        obtain ⟨rfl, rfl⟩ := h
+        refine ⟨rfl, rfl, by simpa using hbelow, ?_⟩
+        rw [hr, hsc]
+        rfl
+
+/-- what `CounterGather.peek` returns when it returns a match (counters exact for the current query) -/
 theorem Counter.peek_some {σ : Type} {ops : ScoreOps σ} {c c' : Counter LS} {cur : LS} {thr s : Nat}
     {score : σ} {sig : Sig LS} {inter : LS}
     (hsc : max c.scaled cur.scaled = s) (hcs : Sorted cur.hs)
     (hent : ∀ e ∈ c.entries, e.sig.mh.WF ∧ e.sig.mh.scaled ≤ s)
+    (hexact : ∀ e ∈ c.entries, e.count = (ovl (dn s cur.hs) (dn s e.sig.mh.hs) : Int))
     (h : c.peek lsOps ops cur thr = .ok (c', some (score, sig, inter))) :
     c' = { c with scaled := s } ∧ ∃ best, mostCommon c.entries = some best ∧ sig = best.sig ∧
       inter = ⟨s, (dn s cur.hs).filter (inL (dn s best.sig.mh.hs)), none⟩ ∧
@@ -309,137 +358,155 @@ theorem Counter.peek_some {σ : Type} {ops : ScoreOps σ} {c c' : Counter LS} {c
       score = ops.contained (ovl (dn s cur.hs) (dn s best.sig.mh.hs)) (dn s cur.hs).length s ∧
       ops.isZero score = false ∧ (dn s cur.hs) ≠ [] := by
   unfold Counter.peek at h
-  split at h
-  · cases h
-  · rename_i best hbest
-    obtain ⟨hbmem, _⟩ := mostCommon_some hbest
-    obtain ⟨hbwf, hble⟩ := hent best hbmem
-    simp only [lsOps_scaled, hsc] at h
-    rw [lsOps_dsF, LS.ds_eq (by omega)] at h
+  by_cases hem : c.entries.isEmpty = true
+  · rw [if_pos hem] at h; cases h
+  rw [if_neg hem] at h
+  simp only [lsOps_scaled, hsc] at h
+  rw [lsOps_dsF, LS.ds_eq (by omega)] at h
+  simp only [] at h
+  by_cases hne' : len lsOps (cur.dsv s) = 0
+  · rw [if_pos hne'] at h; cases h
+  rw [if_neg hne'] at h
+  have hne : ¬ (dn s cur.hs).length = 0 := hne'
+  have hlen : len lsOps (cur.dsv s) = (dn s cur.hs).length := rfl
+  rw [hlen] at h
+  cases hsub : containedBy lsOps ops (cur.dsv s) c.origQuery with
+  | error e => rw [hsub] at h; cases h
+  | ok sub =>
+    rw [hsub] at h
     simp only [] at h
-    by_cases hne' : len lsOps (cur.dsv s) = 0
-    · rw [if_pos hne'] at h; cases h
-    rw [if_neg hne'] at h
-    have hne : ¬ (dn s cur.hs).length = 0 := hne'
-    have hlen : len lsOps (cur.dsv s) = (dn s cur.hs).length := rfl
-    rw [hlen] at h
-    cases hsub : containedBy lsOps ops (cur.dsv s) c.origQuery with
-    | error e => rw [hsub] at h; cases h
-    | ok sub =>
-      rw [hsub] at h
+    by_cases hlt : ops.ltOne sub = true
+    · rw [if_pos hlt] at h; cases h
+    rw [if_neg hlt] at h
+    cases hthr : calcThreshold thr s (dn s cur.hs).length with
+    | error e =>
+      rw [hthr] at h
+      cases e <;> cases h
+    | ok tn =>
+      obtain ⟨t, nT⟩ := tn
+      rw [hthr] at h
       simp only [] at h
-      by_cases hlt : ops.ltOne sub = true
-      · rw [if_pos hlt] at h; cases h
-      rw [if_neg hlt] at h
-      cases hthr : calcThreshold thr s (dn s cur.hs).length with
-      | error e =>
-        rw [hthr] at h
-        cases e <;> cases h
-      | ok tn =>
-        obtain ⟨t, nT⟩ := tn
-        rw [hthr] at h
-        simp only [] at h
-        by_cases hbelow : belowThreshold best.count nT = true
-        · rw [if_pos hbelow] at h; cases h
-        rw [if_neg hbelow] at h
-        have hcurs : Sorted (cur.dsv s).hs := sorted_dn hcs s
-        have hcont : containedBy lsOps ops (cur.dsv s) best.sig.mh =
-            .ok (ops.contained (ovl (dn s cur.hs) (dn s best.sig.mh.hs)) (dn s cur.hs).length s)
-            ∨ ∃ e, containedBy lsOps ops (cur.dsv s) best.sig.mh = .error e := by
-          unfold containedBy
-          by_cases h0 : lsOps.scaled (cur.dsv s) = 0 ∨ lsOps.scaled best.sig.mh = 0
-          · rw [if_pos h0]; exact Or.inr ⟨_, rfl⟩
-          · rw [if_neg h0, if_neg hne', lsOps_cc,
-              LS.cc_ge hbwf hcurs (by simpa [LS.dsv_scaled] using hble)]
-            left; rfl
-        rcases hcont with hcont | ⟨e, hcont⟩
-        · rw [hcont] at h
-          simp only [] at h
-          by_cases hz : ops.isZero (ops.contained (ovl (dn s cur.hs) (dn s best.sig.mh.hs)) (dn s cur.hs).length s) = true
-          · rw [if_pos hz] at h; cases h
-          rw [if_neg hz] at h
-          split at h
-          · cases h
-          · rw [lsOps_dsF, LS.ds_eq hble] at h
-            simp only [lsOps_flat] at h
-            cases hand : lsOps.and (cur.dsv s) (best.sig.mh.dsv s).flat with
-            | error e => rw [hand] at h; cases h
-            | ok inter' =>
-              rw [hand] at h
-              have hbs : Sorted ((best.sig.mh.dsv s).flat).hs := sorted_dn hbwf.sorted s
-              obtain ⟨_, _, _, hr⟩ := LS.and_ok hcurs hbs hand
-              simp only [Except.ok.injEq, Prod.mk.injEq, Option.some.injEq] at h
+      have hcurs : Sorted (cur.dsv s).hs := sorted_dn hcs s
+      cases hloop : peekLoop lsOps (cur.dsv s) s nT (c.entries.length + 1) c.entries with
+      | error e => rw [hloop] at h; cases h
+      | ok lr =>
+        obtain ⟨es, r⟩ := lr
+        rw [hloop] at h
+        obtain ⟨hes, hr⟩ := peekLoop_exact hcurs rfl hent hexact _ hloop
+        cases r with
+        | none => simp only [] at h; cases h
+        | some x =>
+          obtain ⟨best, inter'⟩ := x
+          simp only [] at h hr
+          obtain ⟨hbest, hbelow, hint⟩ := hr
+          obtain ⟨hbmem, _⟩ := mostCommon_some hbest
+          obtain ⟨hbwf, hble⟩ := hent best hbmem
+          have hcont : containedBy lsOps ops (cur.dsv s) best.sig.mh =
+              .ok (ops.contained (ovl (dn s cur.hs) (dn s best.sig.mh.hs)) (dn s cur.hs).length s)
+              ∨ ∃ e, containedBy lsOps ops (cur.dsv s) best.sig.mh = .error e := by
+            unfold containedBy
+            by_cases h0 : lsOps.scaled (cur.dsv s) = 0 ∨ lsOps.scaled best.sig.mh = 0
+            · rw [if_pos h0]; exact Or.inr ⟨_, rfl⟩
+            · rw [if_neg h0, if_neg hne', lsOps_cc,
+                LS.cc_ge hbwf hcurs (by simpa [LS.dsv_scaled] using hble)]
+              left; rfl
+          rcases hcont with hcont | ⟨e, hcont⟩
+          · rw [hcont] at h
+            simp only [] at h
+            by_cases hz : ops.isZero (ops.contained (ovl (dn s cur.hs) (dn s best.sig.mh.hs)) (dn s cur.hs).length s) = true
+            · rw [if_pos hz] at h; cases h
+            rw [if_neg hz] at h
+            split at h
+            · cases h
+            · simp only [Except.ok.injEq, Prod.mk.injEq, Option.some.injEq] at h
               obtain ⟨h1, h2, h3, h4⟩ := h
               subst h1 h2 h3 h4
-              refine ⟨rfl, best, hbest, rfl, hr, ⟨t, nT, hthr, by simpa using hbelow⟩, rfl, by simpa using hz, ?_⟩
+              refine ⟨by rw [hes], best, hbest, rfl, hint, ⟨t, nT, hthr, hbelow⟩, rfl, by simpa using hz, ?_⟩
               intro h0; apply hne; rw [h0]; rfl
-        · rw [hcont] at h; cases h
+          · rw [hcont] at h; cases h
 
-/-- what `CounterGather.peek` means when it returns no match -/
+/-- what `CounterGather.peek` means when it returns no match (counters exact for the current query) -/
 theorem Counter.peek_none {σ : Type} {ops : ScoreOps σ} {c c' : Counter LS} {cur : LS} {thr s : Nat}
-    (hsc : max c.scaled cur.scaled = s)
+    (hsc : max c.scaled cur.scaled = s) (hcs : Sorted cur.hs)
+    (hent : ∀ e ∈ c.entries, e.sig.mh.WF ∧ e.sig.mh.scaled ≤ s)
+    (hexact : ∀ e ∈ c.entries, e.count = (ovl (dn s cur.hs) (dn s e.sig.mh.hs) : Int))
     (h : c.peek lsOps ops cur thr = .ok (c', none)) :
-    c'.entries = c.entries ∧ c'.origQuery = c.origQuery ∧
+    c'.entries = c.entries ∧ c'.origQuery = c.origQuery ∧ (c.entries ≠ [] → c'.scaled = s) ∧
     (c.entries = [] ∨ dn s cur.hs = [] ∨
       ∃ best, mostCommon c.entries = some best ∧ ¬ reaches thr s (dn s cur.hs).length best.count) := by
   unfold Counter.peek at h
-  split at h
-  · rename_i hm
+  by_cases hem : c.entries.isEmpty = true
+  · rw [if_pos hem] at h
     cases h
-    exact ⟨rfl, rfl, Or.inl (mostCommon_eq_none.1 hm)⟩
-  · rename_i best hbest
-    simp only [lsOps_scaled, hsc] at h
-    rw [lsOps_dsF, LS.ds_eq (by omega)] at h
+    have : c.entries = [] := by simpa using hem
+    exact ⟨rfl, rfl, fun hne => absurd this hne, Or.inl this⟩
+  rw [if_neg hem] at h
+  simp only [lsOps_scaled, hsc] at h
+  rw [lsOps_dsF, LS.ds_eq (by omega)] at h
+  simp only [] at h
+  by_cases hne' : len lsOps (cur.dsv s) = 0
+  · rw [if_pos hne'] at h
+    cases h
+    refine ⟨rfl, rfl, fun _ => rfl, Or.inr (Or.inl ?_)⟩
+    exact List.eq_nil_of_length_eq_zero hne'
+  rw [if_neg hne'] at h
+  have hlen : len lsOps (cur.dsv s) = (dn s cur.hs).length := rfl
+  rw [hlen] at h
+  cases hsub : containedBy lsOps ops (cur.dsv s) c.origQuery with
+  | error e => rw [hsub] at h; cases h
+  | ok sub =>
+    rw [hsub] at h
     simp only [] at h
-    by_cases hne' : len lsOps (cur.dsv s) = 0
-    · rw [if_pos hne'] at h
-      cases h
-      refine ⟨rfl, rfl, Or.inr (Or.inl ?_)⟩
-      exact List.eq_nil_of_length_eq_zero hne'
-    rw [if_neg hne'] at h
-    have hlen : len lsOps (cur.dsv s) = (dn s cur.hs).length := rfl
-    rw [hlen] at h
-    cases hsub : containedBy lsOps ops (cur.dsv s) c.origQuery with
-    | error e => rw [hsub] at h; cases h
-    | ok sub =>
-      rw [hsub] at h
-      simp only [] at h
-      by_cases hlt : ops.ltOne sub = true
-      · rw [if_pos hlt] at h; cases h
-      rw [if_neg hlt] at h
-      cases hthr : calcThreshold thr s (dn s cur.hs).length with
-      | error e =>
-        rw [hthr] at h
-        cases e <;> cases h
-        refine ⟨rfl, rfl, Or.inr (Or.inr ⟨best, hbest, ?_⟩)⟩
+    by_cases hlt : ops.ltOne sub = true
+    · rw [if_pos hlt] at h; cases h
+    rw [if_neg hlt] at h
+    cases hthr : calcThreshold thr s (dn s cur.hs).length with
+    | error e =>
+      rw [hthr] at h
+      cases e <;> cases h
+      refine ⟨rfl, rfl, fun _ => rfl, Or.inr (Or.inr ?_)⟩
+      have hne : c.entries ≠ [] := by simpa using hem
+      cases hb : mostCommon c.entries with
+      | none => exact absurd (mostCommon_eq_none.1 hb) hne
+      | some best =>
+        refine ⟨best, rfl, ?_⟩
         rintro ⟨t, nT, h1, _⟩
         rw [hthr] at h1; cases h1
-      | ok tn =>
-        obtain ⟨t, nT⟩ := tn
-        rw [hthr] at h
-        simp only [] at h
-        by_cases hbelow : belowThreshold best.count nT = true
-        · rw [if_pos hbelow] at h
-          cases h
-          refine ⟨rfl, rfl, Or.inr (Or.inr ⟨best, hbest, ?_⟩)⟩
-          rintro ⟨t', nT', h1, h2⟩
-          rw [hthr] at h1
-          cases h1
-          rw [hbelow] at h2; cases h2
-        rw [if_neg hbelow] at h
-        cases hc : containedBy lsOps ops (cur.dsv s) best.sig.mh with
-        | error e => rw [hc] at h; cases h
-        | ok cont =>
-          rw [hc] at h
+    | ok tn =>
+      obtain ⟨t, nT⟩ := tn
+      rw [hthr] at h
+      simp only [] at h
+      have hcurs : Sorted (cur.dsv s).hs := sorted_dn hcs s
+      cases hloop : peekLoop lsOps (cur.dsv s) s nT (c.entries.length + 1) c.entries with
+      | error e => rw [hloop] at h; cases h
+      | ok lr =>
+        obtain ⟨es, r⟩ := lr
+        rw [hloop] at h
+        obtain ⟨hes, hr⟩ := peekLoop_exact hcurs rfl hent hexact _ hloop
+        cases r with
+        | none =>
+          simp only [Except.ok.injEq, Prod.mk.injEq] at h
+          obtain ⟨rfl, _⟩ := h
+          simp only [] at hr
+          refine ⟨hes, rfl, fun _ => rfl, ?_⟩
+          rcases hr with hnil | ⟨best, hbest, hbelow⟩
+          · exact Or.inl hnil
+          · right; right
+            refine ⟨best, hbest, ?_⟩
+            rintro ⟨t', nT', h1, h2⟩
+            rw [hthr] at h1
+            cases h1
+            rw [hbelow] at h2; cases h2
+        | some x =>
+          obtain ⟨best, inter'⟩ := x
           simp only [] at h
-          split at h
-          · cases h
-          · split at h
+          cases hc : containedBy lsOps ops (cur.dsv s) best.sig.mh with
+          | error e => rw [hc] at h; cases h
+          | ok cont =>
+            rw [hc] at h
+            simp only [] at h
+            split at h
             · cases h
-            · split at h
-              · cases h
-              · split at h
-                · cases h
-                · split at h <;> cases h
+            · split at h <;> cases h
 
 end Sm.Gather
